@@ -124,6 +124,12 @@ def units(tier):
             continue
         runs.append(dict(solver='GroupBCD', datafit='QuadraticGroup', penalty='WeightedGroupL2', X=X, layout='single', max_iter=2,
                          max_epochs=1, p0=1, fit_intercept=fi, ws_strategy=strat, warm=False, wg_concrete=[1.0, 0.5]))
+    # an all-zero column whose zeros are STORED in the CSC arrays (zeroed in place): numerically but not structurally empty
+    for X in ('zero_first32', 'zero_last32'):
+        runs.append(dict(solver='AndersonCD', datafit='Quadratic', penalty='L1', X=X, max_iter=2, max_epochs=1, p0=2, fit_intercept=False,
+                         ws_strategy='subdiff', warm=False, sparse=True, explicit_zeros=True))
+        runs.append(dict(solver='ProxNewton', datafit='Quadratic', penalty='L1', X=X, max_iter=1, max_pn_iter=1, p0=2, fit_intercept=False,
+                         ws_strategy='subdiff', warm=False, sparse=True, explicit_zeros=True))
     for c in runs:
         cid = ','.join('%s=%s' % (k, c[k]) for k in sorted(c))
         us.append(Unit('C19/D/run[%s]' % cid, u_degenerate, dict(cfg=c), wall_s=120, max_paths=4000, timeout_ms=8000,
@@ -134,6 +140,17 @@ def units(tier):
                            dict(solver=solver, layout=lay, X=X), wall_s=150, timeout_ms=8000, patched=solver == 'GroupProxNewton'))
     for sp in (False, True):
         us.append(Unit('C19/K/zero-block-constants[sparse=%s]' % sp, u_zero_block_constants, dict(sparse=sp), wall_s=90, timeout_ms=8000))
+    from checks import steps as STP
+    for X, ez in (('zero_first32', True), ('zero_last32', True), ('zero_first32', False)):
+        us.append(Unit('C19/D/MultiTaskBCD[T=1,X=%s,csc,explicit_zeros=%s]' % (X, ez), STP.u_multitask_run,
+                       dict(X=X, fit_intercept=False, sparse=True, warm=False, budget=(2, 1), want=('certificate',), explicit_zeros=ez,
+                            p0=2), wall_s=90, timeout_ms=8000))
+    # block proximal operators evaluated AT the zero row (zero targets, zero gradient): finite, and the global minimiser
+    # (C07's radial units re-used; r = 0 is one of their branches)
+    from checks import c07
+    for nm, gam in (('BlockMCPenalty', None), ('BlockSCAD', 3.0)):
+        us.append(Unit('C19/K/block-prox-at-the-zero-row[%s]' % nm, c07.u_prox_row_radial,
+                       dict(name=nm, T=2, e=c07.UNIT_DIRS[2][0], gamma=gam), wall_s=90))
     return us
 
 
